@@ -288,32 +288,93 @@ func rewriteSelect(x *ast.SelectStmt) ast.Stmt {
 }
 
 func main() {
-	dir, outDir := os.Args[1], os.Args[2]
-	tags := []string{"verif"}
+	// usage: instr -repo DIR -out DIR [-add SRCDIR] pkg...
+	// Every listed package directory (relative to -repo) is parsed with the build tag
+	// "verif", rewritten, and written to -out/<pkg>/; overlay.json maps the original
+	// paths to the rewritten copies. Files found in -add/<pkg>/*.go (harness code that
+	// lives outside the repository) are instrumented as part of the package and added
+	// to it through the overlay.
+	var repo, outDir, addDir string
+	var pkgs []string
+	args := os.Args[1:]
+	for i := 0; i < len(args); i++ {
+		switch args[i] {
+		case "-repo":
+			repo = args[i+1]
+			i++
+		case "-out":
+			outDir = args[i+1]
+			i++
+		case "-add":
+			addDir = args[i+1]
+			i++
+		default:
+			pkgs = append(pkgs, args[i])
+		}
+	}
+	if repo == "" || outDir == "" || len(pkgs) == 0 {
+		fmt.Fprintln(os.Stderr, "usage: instr -repo DIR -out DIR [-add DIR] pkg...")
+		os.Exit(2)
+	}
+	overlay := map[string]string{}
+	total := 0
+	// the source importer resolves golang.org/x/crypto/... relative to the module of the cwd
+	if err := os.Chdir(repo); err != nil {
+		panic(err)
+	}
+	for _, pkg := range pkgs {
+		total += instrumentPackage(repo, pkg, outDir, addDir, overlay)
+	}
+	j, _ := json.MarshalIndent(map[string]any{"Replace": overlay}, "", " ")
+	os.MkdirAll(outDir, 0o755)
+	os.WriteFile(filepath.Join(outDir, "overlay.json"), j, 0o644)
+	fmt.Fprintln(os.Stderr, "instrumented", total, "files of", len(pkgs), "package(s)")
+}
+
+func instrumentPackage(repo, pkg, outRoot, addDir string, overlay map[string]string) int {
+	dir := filepath.Join(repo, pkg)
+	outDir := filepath.Join(outRoot, pkg)
 	ctx := build.Default
-	ctx.BuildTags = tags
+	ctx.BuildTags = []string{"verif"}
 	bp, err := ctx.ImportDir(dir, 0)
 	if err != nil {
 		panic(err)
 	}
-	var files []*ast.File
+	type src struct{ path, name string }
+	var srcs []src
 	for _, f := range bp.GoFiles {
-		af, err := parser.ParseFile(fset, filepath.Join(dir, f), nil, parser.ParseComments)
+		srcs = append(srcs, src{filepath.Join(dir, f), f})
+	}
+	if addDir != "" {
+		extra, _ := filepath.Glob(filepath.Join(addDir, pkg, "*.go"))
+		for _, f := range extra {
+			srcs = append(srcs, src{f, filepath.Base(f)})
+		}
+	}
+	var files []*ast.File
+	for _, f := range srcs {
+		af, err := parser.ParseFile(fset, f.path, nil, parser.ParseComments)
 		if err != nil {
 			panic(err)
 		}
 		files = append(files, af)
 	}
 	info = &types.Info{Types: map[ast.Expr]types.TypeAndValue{}, Uses: map[*ast.Ident]types.Object{}, Defs: map[*ast.Ident]types.Object{}}
-	conf := types.Config{Importer: importer.ForCompiler(fset, "source", nil), Error: func(err error) { fmt.Fprintln(os.Stderr, "typecheck:", err) }}
-	if _, err := conf.Check(bp.ImportPath, fset, files, info); err != nil {
-		fmt.Fprintln(os.Stderr, "typecheck failed (continuing):", err)
+	nerr := 0
+	conf := types.Config{Importer: importer.ForCompiler(fset, "source", nil), Error: func(err error) {
+		nerr++
+		if nerr <= 20 {
+			fmt.Fprintln(os.Stderr, "typecheck:", err)
+		}
+	}}
+	conf.Check("golang.org/x/crypto/"+pkg, fset, files, info)
+	if nerr > 0 {
+		// the tree does not type-check: let the compiler report it on the original sources
+		fmt.Fprintln(os.Stderr, "instr: package", pkg, "has type errors; not instrumenting")
+		os.Exit(3)
 	}
 	os.MkdirAll(outDir, 0o755)
-	overlay := map[string]string{}
 	for i, af := range files {
-		// rewrite imports
-		usesSched := false
 		for _, im := range af.Imports {
 			p, _ := strconv.Unquote(im.Path.Value)
 			switch p {
@@ -347,21 +408,18 @@ func main() {
 		if err := format.Node(&buf, fset, af); err != nil {
 			panic(err)
 		}
-		src := buf.String()
-		if strings.Contains(src, "vsched.") {
-			usesSched = true
+		s := buf.String()
+		if strings.Contains(s, "vsched.") && !strings.Contains(s, `vsched "verif/sched"`) {
+			idx := strings.Index(s, "\npackage ")
+			if strings.HasPrefix(s, "package ") {
+				idx = -1
+			}
+			end := strings.Index(s[idx+1:], "\n") + idx + 1
+			s = s[:end] + "\nimport vsched \"verif/sched\"\n" + s[end:]
 		}
-		if usesSched {
-			// add import after package clause
-			idx := strings.Index(src, "\npackage ")
-			end := strings.Index(src[idx+1:], "\n") + idx + 1
-			src = src[:end] + "\nimport vsched \"verif/sched\"\n" + src[end:]
-		}
-		out := filepath.Join(outDir, bp.GoFiles[i])
-		os.WriteFile(out, []byte(src), 0o644)
-		overlay[filepath.Join(dir, bp.GoFiles[i])] = out
+		out := filepath.Join(outDir, srcs[i].name)
+		os.WriteFile(out, []byte(s), 0o644)
+		overlay[filepath.Join(dir, srcs[i].name)] = out
 	}
-	j, _ := json.MarshalIndent(map[string]any{"Replace": overlay}, "", " ")
-	os.WriteFile(filepath.Join(outDir, "overlay.json"), j, 0o644)
-	fmt.Println("instrumented", len(files), "files")
+	return len(files)
 }
